@@ -56,6 +56,7 @@ typedef struct {
     m_src_task_t tid;
     pthread_t th;
     int retval;
+    bool running;   // its thread was started and did not notify us yet: it is still using this source
 } task_src_t;
 
 /* Struct that holds thresh to self_t mapping for poll plugin */
@@ -111,3 +112,4 @@ int deregister_mod_src(m_mod_t *mod, m_src_types type, void *src_data, m_src_fla
 ev_src_t *register_ctx_src(m_ctx_t *c, m_src_types type, process_cb proc, const void *src_data);
 int deregister_ctx_src(m_ctx_t *c, ev_src_t **src);
 int start_task(m_ctx_t *c, ev_src_t *src);
+void wait_task(ev_src_t *src);
